@@ -10,6 +10,13 @@ C == Cases[case]
 Col(rows, s) == [i \in 1..Len(rows) |-> rows[i][s]]
 \* (M) the raw-moment variance the code uses equals the centred definition
 VarianceFormulationsAgree == \A s \in 1..Len(C.a[1]) : PopVar(Col(C.a, s)) = PopVarCentred(Col(C.a, s)) /\ PopVar(Col(C.b, s)) = PopVarCentred(Col(C.b, s))
+\* (M) presenting both sets K times leaves the difference of means and the population variances unchanged and multiplies both counts by K:
+\* the certificate's second component is divided by K (the statistic grows by sqrt(K)).  Checked for K = 2, 3; used by the harness to derive
+\* the expected statistic of trace sets of many thousand traces (one batch larger than any internal block) from a small case.
+Rep(xs, K) == LET f[k \in 0..K] == IF k = 0 THEN <<>> ELSE f[k - 1] \o xs IN f[K]
+ReplicationLemma == \A s \in 1..Len(C.a[1]) : \A K \in {2, 3} :
+    LET c1 == WelchCert(Col(C.a, s), Col(C.b, s))  cK == WelchCert(Rep(Col(C.a, s), K), Rep(Col(C.b, s), K))
+    IN cK[1] = c1[1] /\ (IsFin(c1[2]) => cK[2] = RDiv(c1[2], RInt(K)))
 Emit == PrintT(<<"EMIT", ToJson([case |-> case, cert |-> [s \in 1..Len(C.a[1]) |-> WelchCert(Col(C.a, s), Col(C.b, s))],
                                   mean1 |-> [s \in 1..Len(C.a[1]) |-> Rat(SeqSum(Col(C.a, s)), Len(C.a))], var1 |-> [s \in 1..Len(C.a[1]) |-> PopVar(Col(C.a, s))]])>>)
 =============================================================================
